@@ -63,6 +63,7 @@ func VerifC08FailStop() {
 		cancel()
 	}
 	err := <-done // a daemon that keeps running with part of the pipeline dead shows up as a hang
+	verifrt.KeepOpen(sw, aw)
 	verifrt.Reach("c08.returned")
 	verifrt.Assert("c08.failure-is-reported", err != nil)
 	types := verifrt.OutputEventTypes(out)
